@@ -218,14 +218,24 @@ def declaredOutsideCodes : List (List Nat) := declaredOutside.map (fun s => s.to
 
 def isOutside (e : Gen.ApiEntry) : Bool := declaredOutsideCodes.contains e.code
 
-/-- the summary table the calls are executed by is closed under every body -/
+/-- every emitted table is closed under its program and the summary table the calls are executed by is closed under every
+body (the other generated obligations read write sets off these tables; closedness is established here, once) -/
 theorem summaries_closed : (List.range Gen.fns.length).all (fun f => closedAt Gen.summaries Gen.fns f) = true := by
   decide +kernel
+
+/-- consequence: the table of every generated function is closed under its program -/
+theorem generated_tables_closed (f : Nat) (i : FnInfo) (hf : Gen.fns[f]? = some i) :
+    closedB Gen.summaries i.prog i.table = true := by
+  have h := closedAll_of_range summaries_closed f i hf
+  unfold closedAt at h
+  rw [hf] at h
+  simp only [Bool.and_eq_true] at h
+  exact h.1
 
 /-- every API member that is not a declared editor writes no parameter and no process-wide object -/
 theorem generated_queries_pure :
     Gen.api.all (fun e => e.editor || e.random || isOutside e ||
-      fnOK e.fid (fun i => closedB Gen.summaries i.prog i.table && (mayWriteIn Gen.summaries i.prog i.table == []) &&
+      fnOK e.fid (fun i => (mayWriteIn Gen.summaries i.prog i.table == []) &&
         (mayWriteGlobalIn Gen.summaries i.prog i.table == []))) = true := by
   decide +kernel
 
@@ -233,8 +243,7 @@ theorem generated_queries_pure :
 (parameter 0) and no process-wide object -/
 theorem generated_editors_write_only_target :
     Gen.api.all (fun e => !e.editor || e.random || isOutside e ||
-      fnOK e.fid (fun i => closedB Gen.summaries i.prog i.table &&
-        (mayWriteIn Gen.summaries i.prog i.table).all (fun j => j == 0) &&
+      fnOK e.fid (fun i => (mayWriteIn Gen.summaries i.prog i.table).all (fun j => j == 0) &&
         (mayWriteGlobalIn Gen.summaries i.prog i.table == []))) = true := by
   decide +kernel
 
@@ -242,14 +251,13 @@ theorem generated_editors_write_only_target :
 form writes no parameter -/
 theorem generated_random_only_rng :
     Gen.api.all (fun e => !e.random ||
-      fnOK e.fid (fun i => closedB Gen.summaries i.prog i.table &&
-        (mayWriteIn Gen.summaries i.prog i.table).all (fun j => e.editor && j == 0) &&
+      fnOK e.fid (fun i => (mayWriteIn Gen.summaries i.prog i.table).all (fun j => e.editor && j == 0) &&
         (mayWriteGlobalIn Gen.summaries i.prog i.table).all (fun g => g == 0))) = true := by
   decide +kernel
 
 /-- property getters are read as plain field access by the translator; they are analysed too and write nothing -/
 theorem getters_pure :
-    Gen.getters.all (fun f => fnOK f (fun i => closedB Gen.summaries i.prog i.table &&
+    Gen.getters.all (fun f => fnOK f (fun i =>
       (mayWriteIn Gen.summaries i.prog i.table == []) && (mayWriteGlobalIn Gen.summaries i.prog i.table == []))) = true := by
   decide +kernel
 
@@ -257,6 +265,20 @@ theorem getters_pure :
 theorem api_covered :
     Gen.apiSurface.all (fun s => Gen.analysed.contains s.1 || declaredOutsideCodes.contains s.1) = true := by
   decide +kernel
+
+/-- **End to end for the regenerated module**: an API member that is not a declared editor, not random by contract and not
+declared outside leaves every caller-visible object (parameters, everything below them, process-wide objects) at its version,
+for every trace of its translated body. -/
+theorem generated_query_frame (e : Gen.ApiEntry) (he : e ∈ Gen.api)
+    (h1 : e.editor = false) (h2 : e.random = false) (h3 : isOutside e = false)
+    (i : FnInfo) (hi : Gen.fns[e.fid]? = some i) (tr : List Nat) (ver : Obj → Nat) (o : Obj) (ho : isCaller o = true) :
+    (execTrace Gen.summaries i.prog tr (entry ver)).ver o = ver o := by
+  have h := generated_queries_pure
+  rw [List.all_eq_true] at h
+  have hq := h e he
+  simp only [h1, h2, h3, Bool.false_or, fnOK, hi, Bool.and_eq_true, beq_iff_eq] at hq
+  have hpc : PureCall Gen.summaries ⟨i.prog, tr⟩ := ⟨i.table, generated_tables_closed e.fid i hi, hq.1, hq.2⟩
+  exact pure_call_frame Gen.summaries ⟨i.prog, tr⟩ hpc ver o ho
 
 /-- nested execution of the regenerated bodies is bounded by their tables (instance of `nested_calls_bounded`) -/
 theorem generated_nested_calls_bounded (tr : NTrace) (p : List Stmt) (A : Pts) (hA : closedB Gen.summaries p A = true)
